@@ -159,6 +159,7 @@ func runC04(c *Ctx, r *Run) {
 	r.Rule("OB-B1", "sender attribution in MultiHandler: abort names exactly the sender of the message whose processing failed; nobody for hash mismatch / recovered panic; the Abort round's culprits for protocol blame")
 	r.Rule("OB-B2", "blame-guard inventory: every culprit append is still controlled by its recorded check on the recorded data and names the loop's own party; SelfID() never flows into a culprit list")
 	r.Rule("PP-1", "per-party table entries written in a loop over parties do not depend on loop-carried accumulators")
+	r.Rule("ALIAS-N", "big-number operations in the protocols write only into objects created in the same function (revealed values, tables and key material are never rewritten)")
 	r.Rule("RG-1", "content RoundNumber() equals the consuming round's Number()")
 	r.Rule("RG-2", "every start function's FinalRoundNumber admits every round reachable from its first round (abort rounds included)")
 	r.Rule("OB-B3", "identifiable-abort decryption proofs: prover and verifier index the ciphertext table consistently (proof keyed j by prover i is about D[j][i])")
@@ -217,6 +218,22 @@ func runC04(c *Ctx, r *Run) {
 	r.Require("OB-B1", 8)
 	r.Require("OB-B2", 8)
 	r.Require("PP-1", 10)
+	// ---- ALIAS-N: the blame recomputation reads the revealed values; it must not rewrite them
+	{
+		var fns []*ssa.Function
+		for _, p := range c.LibPkgs() {
+			rel := c.Rel(p.Types)
+			if !(strings.HasPrefix(rel, "protocols/") || rel == "internal/mta" || rel == "pkg/ecdsa") {
+				continue
+			}
+			for _, fn := range funcsOfPkg(c, c.SSA[p.Types]) {
+				withAnon(fn, func(f *ssa.Function) { fns = append(fns, f) })
+			}
+		}
+		sort.Slice(fns, func(i, j int) bool { return c.FuncName(fns[i]) < c.FuncName(fns[j]) })
+		checkBigIntAliasing(c, r, "ALIAS-N", fns)
+	}
+	r.Require("ALIAS-N", 10)
 	r.Require("RG-1", 30)
 	r.Require("RG-2", 9)
 	r.Require("OB-B3", 2)
